@@ -82,7 +82,8 @@ func (w *world) fork() {
 			len(w.A.App.IncentivesKeeper.GetUpcomingGauges(ca)), len(w.A.App.IncentivesKeeper.GetActiveGauges(ca)),
 			len(w.D.App.IncentivesKeeper.GetUpcomingGauges(cd)), len(w.D.App.IncentivesKeeper.GetActiveGauges(cd)))
 	}
-	w.kvDiffPending = w.dLive
+	// raw state right after the import, before D has executed anything: differences are the round trip's own
+	w.kvDiff()
 	run.Event("fork", "ok")
 }
 
@@ -256,6 +257,10 @@ func (w *world) lockupAccumulation() {
 // between a node and a node initialised from its export one block later, each with the reason. Keys that
 // exist only on the imported node are not judged at all (an import may write defaults explicitly).
 var rawStateAllowed = map[string]string{
+	"staking/0x61/only-A":           "x/staking validator-updates record of the block being executed: written every end-block for the next ABCI response, not genesis state",
+	"ibc/clients/value":             "ibc-go 02-client re-creates the 09-localhost client at the import height (documented under the export oracles)",
+	"incentives/0x04/value":         "x/incentives gauge-id reference lists (by status and start time): same ids, appended in import order instead of creation order; gauges themselves are compared field by field by the export oracles",
+	"incentives/0x05/value":         "x/incentives gauge-id reference lists by denomination: same ids, appended in import order instead of creation order",
 	"staking/0x50/only-A":           "x/staking historical info (block headers of the last N heights): not part of genesis by design",
 	"staking/0x50/value":            "x/staking historical info: not part of genesis by design",
 	"staking/0x37/only-A":           "x/staking unbonding-id counter and index: same cause as the known finding fork-export/staking/...unbonding_id",
@@ -293,25 +298,16 @@ func refineRawClass(store string, key, va, vb []byte) string {
 
 // rawStateSteers lists judged classes whose loss changes how later transactions execute: the fork's suffix
 // is no longer comparable once one of them differs.
-var rawStateSteers = map[string]bool{"valsetpref/osmo/only-A": true, "concentratedliquidity/0x0e/value": true, "concentratedliquidity/0x0e/only-A": true}
+var rawStateSteers = map[string]bool{"poolmanager/0x0b/only-A": true, "poolmanager/0x0a/only-A": true, "valsetpref/osmo/only-A": true, "concentratedliquidity/0x0e/value": true, "concentratedliquidity/0x0e/only-A": true}
 
-// kvDiff compares the raw stores of A and of the replica initialised from A's export after both have
-// executed the first block after the fork: every key that A has and D lacks, or whose value differs, is
+// kvDiff compares the raw stores of A (committed state at the fork height) and of the replica initialised
+// from A's export (its state right after InitChain, before it has executed anything): every key that A has and D lacks, or whose value differs, is
 // module state that the export/import round trip lost or altered, unless its class is listed in
 // rawStateAllowed. This is what makes the fork oracle independent of which genesis fields and queries the
 // harness happens to know about.
 func (w *world) kvDiff() {
-	_, names := simnet.DiffStoresNamed(w.A, w.D, 1)
-	for _, n := range names {
-		w.run.Count("info/raw-store-differs-after-import/" + n)
-	}
-	if os.Getenv("VERIF_C19_DEBUG") != "" {
-		for _, l := range simnet.DiffStores(w.A, w.D, 3) {
-			fmt.Fprintf(os.Stderr, "raw-diff seed=%d h=%d %.300s\n", w.run.Plan.Seed, w.h, l)
-		}
-	}
 	w.run.Count("import-raw-state-compared")
-	classes, examples := simnet.DiffStoreClassesEx(w.A, w.D, refineRawClass)
+	classes, examples := simnet.DiffStoreClassesCtx(w.A, w.D, w.A.QueryCtx(), w.D.PendingCtx(), refineRawClass)
 	for _, c := range classes {
 		if strings.HasSuffix(c, "/only-D") {
 			w.run.Count("info/raw-key-class-only-on-imported-node/" + c)
@@ -323,7 +319,11 @@ func (w *world) kvDiff() {
 		}
 		w.run.Count("info/raw-key-class-differs-after-import/judged/" + c)
 		detail := examples[c]
-		w.report("import-raw-state", c, "height %d: one block after replica D was initialised from A's export the raw module stores differ in key class %s (state lost or altered by the export/import round trip): %.260s", w.h, c, detail)
+		if os.Getenv("VERIF_C19_RAW_CALIBRATE") != "" { // calibration aid: count, do not report
+			fmt.Fprintf(os.Stderr, "raw-class %s known=%v :: %.200s\n", c, w.knownRawClass(c), detail)
+			continue
+		}
+		w.report("import-raw-state", c, "height %d: right after replica D was initialised from A's export its raw module stores differ from A's in key class %s (state lost or altered by the export/import round trip): %.260s", w.h, c, detail)
 		if w.dLive && (rawStateSteers[c] || !w.knownRawClass(c)) {
 			w.dLive = false
 			w.run.Count("info/fork-suffix-not-compared-after-unfaithful-import")
